@@ -18,7 +18,8 @@ def unmarkedAdds : String := "walked-size"
 def plainWalkSkipsEntryDirs : Bool := true
 def highTest : String := "return-if-total-<-high"
 def lowTest : String := "<"
-def evictLoop : List String := ["skip-if-marked", "aside-name-is-path-plus-eq", "rename-aside", "remove-renamed", "subtract-size", "break-if-total-below-low"]
+def evictLoop : List String := ["aside-name-is-path-plus-eq", "rename-unless-marked", "skip-if-not-renamed", "remove-renamed", "subtract-size", "break-if-total-below-low"]
 def failedEvictionsContinue : Nat := 2
+def testAndRenameUnderLock : Bool := true
 def gracePeriod : Nat := 600
 end PlzVerif.Generated.C14
